@@ -43,6 +43,12 @@ Proof.
 Qed.
 End Place.
 
+Lemma off_table_ge size ps : forall pos k o, plookup k (off_table size ps pos) = Some o -> pos <= o.
+Proof.
+  induction ps as [|[j g] ps IH]; intros pos k o H; [discriminate|]. cbn [off_table plookup] in H.
+  destruct (pid_eqb j k); [injection H as <-; lia|]. apply IH in H. lia.
+Qed.
+
 (* lookup in the table is total on the pieces that occur in the order *)
 Lemma plookup_in size ps pos k : In k (map fst ps) -> exists o, plookup k (off_table size ps pos) = Some o.
 Proof.
